@@ -31,21 +31,35 @@ HIDDEN_F = [0.0, 1e20, -9999.0, 3.5, -1e-300]
 HIDDEN_I = [0, -9999, 77, 123456]
 
 
-def gen_array(rnd, shape, dt, fuzzy, mask_p, hostile=False):
+NP_INT = {"DInt": numpy.int64, "DInt32": numpy.int32, "DInt16": numpy.int16, "DInt8": numpy.int8}
+NP_FLOAT = {"DFloat": numpy.float64, "DFloat32": numpy.float32}
+
+
+def gen_array(rnd, shape, dt, fuzzy, mask_p, hostile=False, big=False, fine=False, zeros=False):
+    """dt: DInt | DInt32 | DInt16 | DInt8 | DFloat | DFloat32 (narrow types only ever next to a 64-bit input).
+    big: values near the top of the narrow type's range; fine: float64 values that need more than 24 bits."""
     L = int(numpy.prod(shape)) if shape else 1
-    if dt == "DInt":
-        vals = [rnd.randint(-6, 6) for _ in range(L)]
+    if dt in NP_INT:
+        top = {"DInt": 6, "DInt32": 2 ** 30, "DInt16": 30000, "DInt8": 100}[dt]
+        vals = [rnd.randint(-6, 6) if not big or rnd.random() < 0.3 else rnd.choice([-1, 1]) * (top - rnd.randint(0, 5)) for _ in range(L)]
     elif fuzzy:
         vals = [rnd.randint(-8, 8) / 8.0 for _ in range(L)]
     else:
         vals = [rnd.randint(-24, 24) / 4.0 for _ in range(L)]
-    if hostile and not fuzzy and dt != "DInt" and rnd.random() < 0.3:
+    if hostile and not fuzzy and dt not in NP_INT and rnd.random() < 0.3:
         vals = [v * 16 for v in vals]
+    if fine and dt == "DFloat":
+        vals = [v + rnd.choice([0, 1, 3, -5]) / float(2 ** 30) for v in vals]
+    if zeros:
+        vals = [0 if rnd.random() < 0.4 else v for v in vals]
     mask = [rnd.random() < mask_p for _ in range(L)]
     if all(mask) and L:
         mask[rnd.randrange(L)] = False
-    hid = [(rnd.choice(HIDDEN_I if dt == "DInt" else HIDDEN_F) if m else v) for v, m in zip(vals, mask)]
-    a = numpy.ma.array(numpy.array(hid, dtype=numpy.int64 if dt == "DInt" else numpy.float64).reshape(shape), mask=numpy.array(mask).reshape(shape))
+    isint = dt in NP_INT
+    hid = [(rnd.choice([h for h in HIDDEN_I if abs(h) < 120] if dt == "DInt8" else (HIDDEN_I[:3] if isint else HIDDEN_F)) if m else v)
+           for v, m in zip(vals, mask)]
+    npdt = NP_INT[dt] if isint else NP_FLOAT[dt]
+    a = numpy.ma.array(numpy.array(hid, dtype=npdt).reshape(shape), mask=numpy.array(mask).reshape(shape))
     return a
 
 
@@ -97,7 +111,43 @@ def gen_case(rnd, cname, prop, shape=None):
             dts.append("DFloat" if (fuzzy or rnd.random() < 0.7) else "DInt")
         else:
             dts.append(rnd.choice(["DInt", "DFloat"]))
-    arrays = [gen_array(rnd, shape, dt, fuzzy, mask_p, hostile) for dt in dts]
+    big = fine = False
+    if prop in ("C07", "C02") and cname in ARITH and n >= 2 and rnd.random() < 0.35:
+        # narrow element types next to a 64-bit input: numpy promotes to the wide type, so no overflow is legitimate
+        k = rnd.randrange(n)
+        wide = "DInt" if dts[k] == "DInt" else "DFloat"
+        j = rnd.choice([i for i in range(n) if i != k])
+        dts[k] = wide
+        if wide == "DInt":
+            dts[j] = rnd.choice(["DInt32", "DInt16", "DInt8"])
+            if cname in ("Sum", "AMinusB", "Mean", "Minimum", "Maximum"):   # weights multiply inside the narrow type (legitimate wrap-around)
+                big = True
+                for i in range(n):
+                    if i not in (j, k):
+                        dts[i] = "DInt"
+        else:
+            dts[j] = "DFloat32"
+            fine = True
+    zeros = cname == "ADividedByB" and rnd.random() < 0.5
+    arrays = [gen_array(rnd, shape, dt, fuzzy, mask_p, hostile, big=big and dt != "DInt", fine=fine, zeros=zeros) for dt in dts]
+    if big:
+        # the wide input carries values of the same magnitude as the narrow one
+        for i, dt in enumerate(dts):
+            if dt == "DInt" and rnd.random() < 0.8:
+                d = numpy.ma.getdata(arrays[i])
+                nd = numpy.ma.getdata(arrays[dts.index([x for x in dts if x != "DInt"][0])]).astype(numpy.int64)
+                arrays[i] = numpy.ma.array(numpy.where(numpy.abs(nd) > 50, nd - numpy.sign(nd) * 3, d), mask=numpy.ma.getmaskarray(arrays[i]))
+    if cname in ("NormalizeMeanToMid", "CvtToFuzzyMeanToMid") and rnd.random() < 0.45:
+        # data symmetric about a centre that is itself a cell: some valid cell equals the mean exactly
+        L = int(numpy.prod(shape))
+        if L >= 3:
+            c = rnd.randint(-4, 4)
+            offs = [rnd.randint(1, 5) / 2.0 for _ in range((L - 1) // 2)]
+            vals = [c] + [c + o for o in offs] + [c - o for o in offs]
+            while len(vals) < L:
+                vals.append(c)
+            rnd.shuffle(vals)
+            arrays = [numpy.ma.array(numpy.array(vals, dtype=float).reshape(shape), mask=numpy.zeros(shape, dtype=bool))]
     p = {}
     errorish = prop in ("C07", "C13") and rnd.random() < 0.12
     if errorish and cname in cc.NARY | cc.BINARY and n >= 2 and rnd.random() < 0.5:
